@@ -154,6 +154,15 @@ type Case struct {
 	Req2  *Req    `json:"req2,omitempty"`
 	User2 *string `json:"user2,omitempty"`
 	View  string  `json:"view,omitempty"`
+	// faults of the stream (first call, first run only): SendFailAt = k > 0: the k-th
+	// Send returns an error; RecvErrAt = j > 0: the j-th poll trigger's Recv returns
+	// an error other than EOF.  FaultHit / RecvHit are observations: the fault
+	// was actually reached.
+	SendFailAt int  `json:"send_fail_at,omitempty"`
+	RecvErrAt  int  `json:"recv_err_at,omitempty"`
+	FaultHit   bool `json:"fault_hit,omitempty"`
+	FailK      int  `json:"fail_k,omitempty"`
+	RecvHit    bool `json:"recv_hit,omitempty"`
 	// Build != 0: the server is constructed another way (derived from this
 	// seed): the options in a permuted order, nil options interleaved, and
 	// behaviour-neutral options added (WithStats, WithFlowControlTest, the stats
@@ -308,19 +317,52 @@ type memStream struct {
 	mu    sync.Mutex
 	cur   []OResp
 	syncs int64 // sync responses sent so far (atomic)
+	// fault injection
+	failAt, sends, failK int
+	failed               bool
+	recvErr              chan struct{} // a value here makes the next Recv fail
+	recvFailed           bool
 }
+
+var errStream = errors.New("transport is closing")
 
 func (s *memStream) Context() context.Context { return s.ctx }
 
 func (s *memStream) Recv() (*pb.SubscribeRequest, error) {
-	r, ok := <-s.reqs
-	if !ok {
-		return nil, io.EOF
+	select {
+	case r, ok := <-s.reqs:
+		if !ok {
+			return nil, io.EOF
+		}
+		return r, nil
+	case <-s.recvErr:
+		s.mu.Lock()
+		s.recvFailed = true
+		s.mu.Unlock()
+		return nil, errStream
 	}
-	return r, nil
 }
 
 func (s *memStream) Send(r *pb.SubscribeResponse) error {
+	s.mu.Lock()
+	s.sends++
+	// failAt = k > 0: the k-th Send fails; failAt = -1: the first Send of a
+	// response that carries a duplicate count fails
+	dupd := false
+	if u := r.GetUpdate().GetUpdate(); len(u) > 0 && u[0].GetDuplicates() > 0 {
+		dupd = true
+	}
+	if !s.failed && ((s.failAt > 0 && s.sends >= s.failAt) || (s.failAt == -1 && dupd)) {
+		s.failed = true
+		s.failK = s.sends
+		s.mu.Unlock()
+		return errStream
+	}
+	if s.failed {
+		s.mu.Unlock()
+		return errStream
+	}
+	s.mu.Unlock()
 	var o OResp
 	switch v := r.GetResponse().(type) {
 	case *pb.SubscribeResponse_SyncResponse:
@@ -403,7 +445,7 @@ func goroutineStates() gstate {
 		if sel && bytes.Contains(body, []byte("coalesce.(*Queue).Next(")) {
 			g.parkedSenders++
 		}
-		if rcv && bytes.Contains(body, []byte("(*Server).processPollingSubscription(")) && bytes.Contains(body, []byte("(*memStream).Recv(")) {
+		if (rcv || sel) && bytes.Contains(body, []byte("(*Server).processPollingSubscription(")) && bytes.Contains(body, []byte("(*memStream).Recv(")) {
 			g.parkedPollers++
 		}
 	}
@@ -500,6 +542,11 @@ func drainServer(limit time.Duration) bool {
 
 var fakeNow int64
 
+// polluted: some dump of the current run found a stored notification carrying a
+// duplicate count (an implementation detail gone wrong: reported through the
+// correspondence, as an impossible cache-operation outcome of the last step)
+var polluted bool
+
 func dumpCache(ca *cache.Cache, targets []string) []DEntry {
 	var out []DEntry
 	for _, t := range targets {
@@ -509,7 +556,10 @@ func dumpCache(ca *cache.Cache, targets []string) []DEntry {
 				out = append(out, DEntry{Target: t, Path: append([]string{}, p...), N: Noti{TS: weird}})
 				return nil
 			}
-			pn, _ := projNoti(n)
+			pn, dup := projNoti(n)
+			if dup != 0 {
+				polluted = true // a stored notification must never carry a client's duplicate count
+			}
 			out = append(out, DEntry{Target: t, Path: append([]string{}, p...), N: pn})
 			return nil
 		})
@@ -729,6 +779,28 @@ func addNoise(r *vh.Rand, c *Case) {
 	if r.Chance(1, 3) {
 		c.Build = r.U64() | 1
 	}
+	bursts := false
+	for _, o := range c.Ops {
+		if o.Burst != 0 {
+			bursts = true
+		}
+	}
+	if c.Req2 == nil && c.TimeoutMS == 0 && !bursts {
+		npolls := 0
+		for _, o := range c.Ops {
+			if o.K == "poll" {
+				npolls++
+			}
+		}
+		switch {
+		case r.Chance(1, 25):
+			c.SendFailAt = 1 + r.Intn(6)
+		case r.Chance(1, 25):
+			c.SendFailAt = -1
+		case npolls > 0 && r.Chance(1, 10):
+			c.RecvErrAt = 1 + r.Intn(npolls)
+		}
+	}
 	for i := range c.Ops {
 		if c.Ops[i].K == "poll" && r.Chance(1, 5) {
 			c.Ops[i].Trig = 1 + r.Intn(2)
@@ -792,7 +864,8 @@ func opTarget(op Step) string {
 // one Run per RPC of the script: the call of step "sub" (request c.Req, user
 // c.User) and, if there is a step "sub2", a second call on the same server from
 // the same peer address (request c.Req2, user c.User2) that overlaps the first.
-func runScript(c *Case, withACL bool) []*Run {
+func runScript(c *Case, withACL bool, faults bool) []*Run {
+	polluted = false
 	if c.Perturb != 0 {
 		atomic.StoreInt32(&perturb, int32(c.Perturb))
 		defer atomic.StoreInt32(&perturb, 0)
@@ -811,9 +884,13 @@ func runScript(c *Case, withACL bool) []*Run {
 			ctx = context.WithValue(ctx, userKey{}, *user)
 		}
 		ctx, cancel := context.WithCancel(ctx)
-		return &rpc{st: &memStream{ctx: ctx, reqs: make(chan *pb.SubscribeRequest, 8)}, cancel: cancel, done: make(chan struct{}), req: req}
+		return &rpc{st: &memStream{ctx: ctx, reqs: make(chan *pb.SubscribeRequest, 8), recvErr: make(chan struct{}, 1)}, cancel: cancel, done: make(chan struct{}), req: req}
 	}
 	rpcs := []*rpc{mk(c.User, c.Req)}
+	if faults {
+		rpcs[0].st.failAt = c.SendFailAt
+	}
+	polls := 0
 	two := false
 	for _, op := range c.Ops {
 		if op.K == "sub2" {
@@ -995,7 +1072,12 @@ func runScript(c *Case, withACL bool) []*Run {
 			ob.HasDump = true
 		case "poll":
 			if r := rpcs[0]; r.started && !r.closedReqs && !r.returned() {
-				r.st.reqs <- trigger(op, r.req)
+				polls++
+				if faults && c.RecvErrAt > 0 && polls == c.RecvErrAt {
+					r.st.recvErr <- struct{}{}
+				} else {
+					r.st.reqs <- trigger(op, r.req)
+				}
 			}
 			ob.HasDump = true
 		}
@@ -1066,14 +1148,30 @@ func runScript(c *Case, withACL bool) []*Run {
 		}
 		hung = true
 	}
+	if faults {
+		rpcs[0].st.mu.Lock()
+		c.FaultHit, c.RecvHit = rpcs[0].st.failed, rpcs[0].st.recvFailed
+		c.FailK = rpcs[0].st.failK
+		rpcs[0].st.mu.Unlock()
+	}
+	if !hung {
+		final := dumpCache(ca, c.Targets)
+		for i := range runs {
+			runs[i].Final = final
+		}
+	}
+	if polluted {
+		for _, run := range runs {
+			if n := len(run.Obs); n > 0 {
+				run.Obs[n-1].CRes = "panic"
+			}
+		}
+	}
 	for i, r := range rpcs {
 		// anything sent after the last step belongs to no group: it is an extra response
 		if extra := r.st.take(); len(extra) > 0 && len(runs[i].Obs) > 0 {
 			n := len(runs[i].Obs) - 1
 			runs[i].Obs[n].Group = append(runs[i].Obs[n].Group, extra...)
-		}
-		if !hung {
-			runs[i].Final = dumpCache(ca, c.Targets)
 		}
 	}
 	return runs
@@ -1252,8 +1350,12 @@ func (f *caseFile) caseTerm(c *Case) string {
 	if c.R2 != nil {
 		obs2, st2 = f.obs(c.R2.Obs), statusTerm[c.R2.Status]
 	}
-	return fmt.Sprintf("CS %s %s %s %s %s %s %s %s %s %s", vh.List(ts), acl, user, req, vh.List(ops),
-		f.obs(c.R1.Obs), statusTerm[c.R1.Status], f.dump(c.R1.Final), obs2, st2)
+	fault := 0
+	if c.FaultHit && c.View != "b" {
+		fault = c.FailK
+	}
+	return fmt.Sprintf("CS %s %s %s %s %s %s %s %s %s %s %d%%N %s", vh.List(ts), acl, user, req, vh.List(ops),
+		f.obs(c.R1.Obs), statusTerm[c.R1.Status], f.dump(c.R1.Final), obs2, st2, fault, vh.Bool(c.RecvHit && c.View != "b"))
 }
 
 func (f *caseFile) add(c *Case) {
@@ -1309,10 +1411,10 @@ func (e *emitter) add(family string, c Case) {
 		c = cloneCase(c) // generators may share request objects between cases
 		addNoise(e.noise, &c)
 	}
-	runs1 := runScript(&c, true)
+	runs1 := runScript(&c, true, true)
 	var runs2 []*Run
 	if e.twice {
-		runs2 = runScript(&c, false)
+		runs2 = runScript(&c, false, false)
 	}
 	if len(runs1) == 2 {
 		// two overlapping calls: one entry per caller, each judged on its own
